@@ -1234,7 +1234,7 @@ func EvalProgram(progSrc string, files []InputFile, rootSelectors []string, stdo
 	// for each file, run the pattern rules
 	for _, file := range files {
 		// for each json value
-		d := json.NewDecoder(file.Reader)
+		d := json.NewDecoder(&inputReader{r: file.Reader})
 		for {
 			var rootValue any
 			err := d.Decode(&rootValue)
